@@ -52,6 +52,14 @@ impl Future for GateFut {
             }
             _ => {
                 g.waker = Some(cx.waker().clone());
+                // one poll of the state machine that keeps re-polling a pending environment future makes no
+                // progress: it spins inside the poll (the executor never gets control back)
+                w.pending_polls_in_poll += 1;
+                if w.in_poll && w.pending_polls_in_poll > 100_000 {
+                    w.pending_polls_in_poll = 0;
+                    drop(w);
+                    panic!("harness watchdog: a pending environment future (gate {}) was polled more than 100000 times within one poll of the state machine: the task spins without yielding", id);
+                }
                 Poll::Pending
             }
         }
